@@ -265,6 +265,17 @@ func (v *view) build(st simcore.Step, sender int) []sdk.Msg {
 			in = osmomath.NewInt(1) // not a share holder: fails inside message execution
 		}
 		return one(&gammtypes.MsgExitPool{Sender: me, PoolId: p.id, ShareInAmount: in})
+	case "gamm-ghost-swap", "pm-ghost-swap":
+		// a swap through a pool id that does not exist (yet): the next one. A node whose
+		// in-memory pool-route cache was warmed by a rolled-back pool creation and a
+		// node that has restarted since must still answer alike.
+		ghost := w.A.App.PoolManagerKeeper.GetNextPoolId(v.ctx)
+		routes := []poolmanagertypes.SwapAmountInRoute{{PoolId: ghost, TokenOutDenom: "uion"}}
+		in := sdk.NewCoin("uosmo", osmomath.NewInt(1000+x2%100000))
+		if st.Op == "gamm-ghost-swap" {
+			return one(&gammtypes.MsgSwapExactAmountIn{Sender: me, Routes: routes, TokenIn: in, TokenOutMinAmount: osmomath.NewInt(1)})
+		}
+		return one(&poolmanagertypes.MsgSwapExactAmountIn{Sender: me, Routes: routes, TokenIn: in, TokenOutMinAmount: osmomath.NewInt(1)})
 	case "gamm-swap":
 		p, ok := pick(v.pools, x0)
 		if !ok {
